@@ -20,6 +20,8 @@ returns a result).
 -/
 import RegexVerif.Props.C10Parser
 import RegexVerif.Lemmas.VM
+import RegexVerif.Lemmas.Compose
+import RegexVerif.Lemmas.StackTyping
 
 namespace RegexVerif.Props.C10
 open RegexVerif RegexVerif.VM RegexVerif.Code RegexVerif.Lemmas.VM
@@ -128,5 +130,86 @@ example : broken.wf = false ∧
         | .fault .codeIndex => true
         | _ => false)
      | .error _ => false) = true := by decide
+
+/-! ------------------------------------------------------------------------------------------------
+### Composition with the writer: no per-program hypothesis left
+
+`Writer.emit ti root` (Model/Writer.lean) is the program `syntax.Write` produces for the reduced tree `root`
+(tied to the Go writer word for word by leg Wr), `Writer.treeWf` the decidable tree well-formedness the parser
+guarantees (leg Wr evaluates it on every parsed tree).  The theorems of this section discharge the hypothesis
+`p.wf = true` of the theorems above for every program the writer emits, main and bool-only: the safety
+statement holds for every pattern tree, not per compiled program.
+------------------------------------------------------------------------------------------------ -/
+
+section Emitted
+open RegexVerif.Writer RegexVerif.Lemmas.Compose
+
+/-- **The writer emits well-formed programs.**  For every tree with `treeWf` the emitted program passes the
+    interpreter's own check `Prog.wf`: the code array splits into known instructions of the regenerated lengths,
+    no opcode word has a Back/Back2 bit or is `Prune`, every instruction but `Stop` is followed by another one,
+    string / set / capture operands are in range (`Capturemark`: slot or −1, not both −1), every jump lands on an
+    instruction, position 0 is a `Lazybranch` whose target is the final `Stop`. -/
+theorem emit_vm_wf (ti : TreeInfo) (root : GoNode) (h : treeWf ti root = true) : (emit ti root).wf = true :=
+  Lemmas.Compose.emit_vm_wf ti root h
+
+/-- the same for the bool-only program (`makeQuickCode`: the second writer's code with the first program's
+    tables, `TrackCount` and `Capsize`), whenever it exists -/
+theorem emitQuick_vm_wf (ti : TreeInfo) (root : GoNode) (h : treeWf ti root = true) (qp : Prog)
+    (hq : emitQuick ti root = some qp) : qp.wf = true :=
+  Lemmas.Compose.emitQuick_vm_wf ti root h qp hq
+
+/-- **No structural fault for any pattern.**  For every well-formed tree, every text, every start position inside
+    the text, every `\G` origin, every oracle set (`env`) and any number of iterations: the attempt of the emitted
+    program starts, and its run never ends in `Codes[…]`, `Strings[…]`, `Sets[…]`, `Runtext[…]` out of range, a
+    Back / Back2 case popping slots that are not there, `backtrack()` on an empty stack, a capture number outside
+    the capture arrays or an operator without a `case`. -/
+theorem emitted_no_structural_fault (ti : TreeInfo) (root : GoNode) (h : treeWf ti root = true)
+    (env : Env) (pos : Int) (h0 : 0 ≤ pos) (hn : pos ≤ env.len) (fuel : Nat) :
+    ∃ s0, init (emit ti root) pos = .ok s0 ∧
+      ∀ f, (run (emit ti root) env fuel s0).1 = .fault f → f.structural = false :=
+  attempt_no_structural_fault (emit ti root) env pos (emit_vm_wf ti root h) h0 hn fuel
+
+/-- the same for the bool-only program -/
+theorem emittedQuick_no_structural_fault (ti : TreeInfo) (root : GoNode) (h : treeWf ti root = true) (qp : Prog)
+    (hq : emitQuick ti root = some qp) (env : Env) (pos : Int) (h0 : 0 ≤ pos) (hn : pos ≤ env.len) (fuel : Nat) :
+    ∃ s0, init qp pos = .ok s0 ∧ ∀ f, (run qp env fuel s0).1 = .fault f → f.structural = false :=
+  attempt_no_structural_fault qp env pos (emitQuick_vm_wf ti root h qp hq) h0 hn fuel
+
+/-! non-vacuity: the trees of `(?:ab?)*c`, `(a)|b\1` and `(x)y` (Lemmas/Compose.lean; their emitted code is what
+    `regexp2.MustCompile` produces) are well-formed; the first emits the program `demo` of the examples above; the
+    third has a bool-only program -/
+example : treeWf info1 tree1 = true ∧ treeWf info2 tree2 = true ∧ treeWf info2 tree3 = true := by decide
+example : (emit info1 tree1).codes = demo.codes ∧ (emit info1 tree1).wf = true ∧ (emit info2 tree2).wf = true := by
+  decide
+example : ∃ s0, init (emit info2 tree2) 1 = .ok s0 ∧
+    ∀ f, (run (emit info2 tree2) demoEnv 1000 s0).1 = .fault f → f.structural = false :=
+  emitted_no_structural_fault info2 tree2 (by decide) demoEnv 1 (by decide) (by decide) 1000
+example : ∃ qp, emitQuick info2 tree3 = some qp ∧ qp.wf = true ∧ qp.codes.toList = [23, 10, 31, 9, 120, 9, 121, 32, 0, -1, 40] :=
+  ⟨_, rfl, by decide, by decide⟩
+
+/-! ### the grouping-stack typing (Model/StackTyping.lean): evaluated, not yet a guarantee
+
+`StackTyping.typed p` — a height and a kind (text position / mark / counter / saved backtracking depth / saved
+crawl depth) for every grouping-stack slot at every instruction boundary, consistent along fall-through, jumps and
+the continuations of the Back cases — is decidable and leg W evaluates it on every compiled program
+(`W:untyped:<opcode>`).  That a typed well-formed program never raises `stackUnderflow`, `tracktoRange` or
+`textposRange` is NOT proved here (design.d/C10.md states the invariant the proof needs); the examples show the
+check is not vacuous: the emitted programs are typed, and a program that is `wf` and `potOk` but untyped runs into
+`stackUnderflow`. -/
+
+example : StackTyping.typed demo = true ∧ StackTyping.typed (emit info2 tree2) = true ∧
+    StackTyping.maxHeight (emit info2 tree2) = 4 ∧
+    (emitQuick info2 tree3).map StackTyping.typed = some true := by decide
+
+example : Lemmas.StackTyping.untypedDemo.wf = true ∧ potOk Lemmas.StackTyping.untypedDemo = true ∧
+    StackTyping.typed Lemmas.StackTyping.untypedDemo = false ∧
+    StackTyping.typeReport Lemmas.StackTyping.untypedDemo = 1 + Generated.Opcodes.opGetmark ∧
+    (match init Lemmas.StackTyping.untypedDemo 0 with
+     | .ok s0 => (match (run Lemmas.StackTyping.untypedDemo demoEnv 10 s0).1 with
+        | .fault .stackUnderflow => true
+        | _ => false)
+     | .error _ => false) = true := by decide
+
+end Emitted
 
 end RegexVerif.Props.C10
